@@ -30,7 +30,8 @@ def texts(tier, rng, n):
             if k < 0.45: recs.append(day.replace("-", "-1", 1)[:3] + day[3:].replace("-", "-13-", 1)[:8] + "\n    1h\n")       # month 13x: invalid date
             elif k < 0.6: recs.append(day + "\n    8:00 - 7:00\n")
             elif k < 0.7: recs.append(day + " oops\n")
-            elif k < 0.8: recs.append(day + "\n   1h\n      x\n     2h\n")
+            elif k < 0.76: recs.append(day + "\n   1h\n      x\n     2h\n")
+            elif k < 0.84: recs.append(day + "\n    8:00 - ?\n    1h\n    9:00-? again\n")        # a second open range (its message names lines)
             else: recs.append(day + "\n    %dm text\n" % rng.randint(1, 300))
         out.append(rng.choice(["\n", "\n\n", "\r\n"]).join(recs).encode())
     out += [b"", b"\n", b"\n\n\n", b"a", b"2020-01-01", b"2020-01-01\n\n2020-01-02\r\n\r\n\r\n2020-01-03\n    1h \xe8\xaa\xad\n\n", b"2020-01-01\nfoo\xc3bar baz qux\n\n2020-01-02\n    1h\n",
